@@ -502,7 +502,18 @@ fn layer3(kind: &'static str, mode: AccessListMode) -> (u64, Vec<(String, String
         for h in [A, B, C] {
             checks += 1;
             let allowed = allows_exp(mode, &list, h);
-            let got = announce(h, &mut ws, &mut http);
+            // an unanswered announce (loaded machine, broken connection) is repeated: refused announces have no effect and
+            // accepted ones are idempotent
+            let mut got = announce(h, &mut ws, &mut http);
+            for _ in 0..3 {
+                if got.is_some() {
+                    break;
+                }
+                ws = None;
+                http = None;
+                std::thread::sleep(Duration::from_millis(300));
+                got = announce(h, &mut ws, &mut http);
+            }
             if got != Some(allowed) {
                 viols.push((
                     format!("accesslist/{}/{}", kind, if allowed { "permitted-announce-refused" } else { "forbidden-announce-accepted" }),
